@@ -242,12 +242,19 @@ Definition add_st (r : Z) (l : list (Z * Qc)) (combine reversibly : bool) (s : s
 
 Definition neg_list (l : list (Z * Qc)) : list (Z * Qc) := map (fun mc => (fst mc, (- snd mc)%Qc)) l.
 
-(* set_objective(model, {r: c ...}, additive) *)
-Definition set_obj (l : list (Z * Qc)) (additive : bool) (s : st) : st :=
-  let reverse_value := oc s in let reverse_dir := odir s in
-  let s1 := if additive then s else set_oc s (fun _ => q0) in
-  let s2 := fold_left (fun a rc => set_oc a (updn (updn (oc a) (F (fst rc)) (snd rc)) (R (fst rc)) (- snd rc)%Qc)) l s1 in
-  if in_ctx s2 then record (UObjective reverse_value reverse_dir) s2 else s2.
+(* set_objective(model, {r: c ...}, additive): the undo is registered first; a reaction that is not in
+   the model has no variables and makes the assignment raise part-way (AttributeError)            *)
+Fixpoint set_obj_loop (l : list (Z * Qc)) (s : st) : st * res :=
+  match l with
+  | [] => (s, Ok)
+  | (r, c) :: l' =>
+      if rin s r then set_obj_loop l' (set_oc s (updn (updn (oc s) (F r) c) (R r) (- c)%Qc))
+      else (s, RaiseOther)
+  end.
+Definition set_obj (l : list (Z * Qc)) (additive : bool) (s : st) : st * res :=
+  let s0 := if in_ctx s then record (UObjective (oc s) (odir s)) s else s in
+  let s1 := if additive then s0 else set_oc s0 (fun _ => q0) in
+  set_obj_loop l s1.
 
 (* Model.add_reactions([r]) for a detached reaction object built from fresh metabolite objects *)
 Definition add_rxn (r : Z) (s : st) : st :=
@@ -373,8 +380,8 @@ Definition step (s : st) (o : op) : st * res :=
   | KnockOut r => set_bounds r (Fn q0) (Fn q0) s
   | AddSt r l c => add_st r l c true (note_ids [] (map fst l) s)
   | SubSt r l c => add_st r (neg_list l) c true (note_ids [] (map fst l) s)
-  | SetObj l => (set_obj l false s, Ok)
-  | SetObjCoef r c => (set_obj [(r, c)] true s, Ok)
+  | SetObj l => set_obj l false s
+  | SetObjCoef r c => if rin s r then set_obj [(r, c)] true s else (s, RaiseOther)
   | SetDir d => (set_dir d s, Ok)
   | Imul r c => (imul r c s, Ok)
   | Enter => (enter_ctx s, Ok)
